@@ -179,6 +179,32 @@ void h_register_unregister(void)
 	VERIF_COVER(in_pre & 1); VERIF_COVER(!(in_pre & 1));
 }
 
+/* find_chunk / cleanup_thread with TWO chunks: the slot of an exiting thread is released in the chunk that contains it */
+unsigned long in_chunk, in_idx;
+#ifndef FC_WHICH
+#define FC_WHICH 0
+#define FC_LAST 0
+#endif
+void h_find_chunk(void)
+{
+	struct registry_chunk *c0, *c1, *f; struct urcu_bp_reader *slot; unsigned long idx, which;
+	VIN(unsigned long, in_chunk); VIN(unsigned long, in_idx);
+	CDS_INIT_LIST_HEAD(&registry_arena.chunk_list); CDS_INIT_LIST_HEAD(&registry);
+	expand_arena(&registry_arena); G_mremap_ok = 0; expand_arena(&registry_arena);	/* second chunk (mremap refused) */
+	c0 = CHUNK0; c1 = CHUNKLAST;
+	VERIF_REQUIRE(c0 != c1);
+	which = FC_WHICH; idx = FC_LAST ? (which ? 2 * INIT_READER_COUNT : INIT_READER_COUNT) - 1 : 0;	/* first / last slot of either chunk (the boundary cases of the range test) */
+	slot = which ? &c1->readers[idx] : &c0->readers[idx];
+	f = find_chunk(slot);
+	VERIF_ASSERT(f == (which ? c1 : c0), "find_chunk: the chunk that contains the slot, for every slot of either chunk (first and last slot included)");
+	VERIF_ASSERT(find_chunk(&c0->readers[INIT_READER_COUNT]) != c0, "find_chunk: the address one past a chunk's last slot does not belong to it");
+	slot->alloc = 1; slot->ctr = 0x10001; slot->tid = pthread_self(); cds_list_add(&slot->node, &registry); c0->used = 3; c1->used = 5; (which ? c1 : c0)->used++;
+	remove_thread(slot);
+	VERIF_ASSERT(slot->alloc == 0 && slot->ctr == 0 && slot->tid == 0 && cds_list_empty(&registry), "remove_thread: slot released, reader word cleared, off the registry");
+	VERIF_ASSERT(c0->used == 3 && c1->used == 5, "remove_thread: the usage count of the chunk that contains the slot - and only that one - goes down (arena_alloc skips chunks whose count says full)");
+	VERIF_COVER(f != 0);
+}
+
 /* C15.O5 / C19: a signal handler registers the thread inside urcu_bp_register(), just before signals get blocked */
 void h_register_signal(void)
 {
